@@ -280,3 +280,32 @@ claim("C17",
       "element hashes is decided by C02.2/C04.1/C14.2, not here.",
       "go/types + go/ssa of x/tools v0.29.0, default build configuration; the node's cached hash (node.cache()) is trusted to be the hash of the node's encoding; Keccak and RLP are "
       "trusted; frozen pairing table (cache field -> root field) and method list in lint/internal/rules/c17.go")
+
+claim("C04",
+      "field coverage of the transaction identity + heeded-guard / must-call / control-scope rules over the replay guard, test-and-insert recognition, guarded Ecrecover consumers (SSA/CFG)",
+      "Decides, for all paths at once, the structural necessary conditions of replay protection: Transaction.Hash is computed from every authenticated field of "
+      "txdata and both signature lists, from neither GasUsed nor the JSON Hash field, and from everything each of the three signing hashes covers; the ancestor test "
+      "ExistTxs(parent, block.Txs) is heeded on the acceptance path and the three TxTracer siblings (AddTrace/DelTrace/LoadTraces) all expand box sub transactions; "
+      "every inserted, mined and (on start) reloaded block reaches TxGuard.SaveBlock, which traces every transaction; both expiry comparisons and the chain id comparison "
+      "of VerifyTxBody reject, a box applies them to each sub transaction with the caller's clock and refuses nested boxes; verifyTxs tests-and-inserts the identity of "
+      "every transaction and every box sub transaction into one set and a hit rejects; every recovered signature takes part in the decision or rejects (single signature "
+      "rule, non-member and duplicate rejection); DelOldBlocks prunes at stableTime-MaxTxLifeTime and forgets only expired blocks; the miner hands the assembler exactly the "
+      "pool list filtered through txGuard.ExistTx against the parent it builds on. The canonical (low s) signature clause is decided per Ecrecover consumer: every use of a recovered key is dominated by a heeded "
+      "canonical-form test (resolved through callees down to ValidateSignatureValues and its s > n/2 comparison) of the very bytes recovered from. It does not decide the bucket arithmetic of TimeBuckets, the fork walk of BlockCache.SliceOnFork, staleness of the "
+      "per-transaction hash cache, behaviour across fork switches, nor anything cryptographic.",
+      "go/types + go/ssa of x/tools v0.29.0, default (cgo) build configuration only — the repository does not type-check with CGO_ENABLED=0 or the nocgo tag; anchors and "
+      "constants resolved by object (params.BoxTx, params.MaxTxLifeTime by value); the frozen rule table in lint/internal/rules/c04.go; no recorded finding")
+
+claim("C06",
+      "guarded-action dominance in applyTx + closed caller sets + field coverage of the three signing hashes + decision-guard / path-cut / control-correlation rules over the signature check (SSA/CFG)",
+      "Decides the structural necessary conditions of 'only authorised transactions change state': in applyTx every TxProcessor action and every call that is handed the gas "
+      "pool runs only after a heeded VerifyTxBeforeApply(tx), which heeds verifyTransactionSigs; handleTx, the gas helpers and the nine per-type executors are called from "
+      "applyTx/handleTx only and box sub transactions run through applyTx one by one; DefaultSigner.Hash covers every content field, ReimbursementTxSigner.Hash everything but gas "
+      "price/limit, GasPayerSigner.Hash covers Sigs, gas price and gas limit, each GetSigners recovers over its own hash from its own list and recoverSigners turns every "
+      "signature into an address or fails; every success path of checkSignersWeight runs over 'signer = sender' or 'sum of registered weights >= 100', the branch being chosen "
+      "by the sender account's own signer list; every success path of verifyTransactionSigs runs over verified payer signatures or 'gasPayer = from', and the gas-less signing "
+      "hash is selected under the very condition under which the payer signatures are verified; a multisig configuration is validated (count, weight range, duplicate address, "
+      "total weight) before SetSingers, on another account only for an unset temp address of the sender; the weight loop counts every signer once (seen-set, D3 repaired). "
+      "It does not decide cryptographic soundness, what executors do with the sender's authority, nor signature canonical form (reported under C04.5, D6).",
+      "go/types + go/ssa of x/tools v0.29.0, default build configuration; the frozen rule table in lint/internal/rules/c06.go (verification family, executor list, permitted "
+      "callers of SetSingers incl. the journal's redoSigner/undoSigner); constants SignerWeightThreshold / MaxSignersNumber matched by value")
